@@ -398,7 +398,7 @@ func (g *gen) symbol() slip.Object {
 
 var safeSymbols = []string{"foo", "bar", "a", "x1", "car", "Foo", "FOO", "fooBar", "a-b", "*x*", "+", "-", "1+", "a.b", "...", "<=", "a:b", "$v", "%", "=", "~a", "^", "_",
 	"tt", "nile", ":key", ":Key", ":", ":1", "quote", "lambda", "u", "defun", "&rest", "a@b", "x/y"}
-var safePipeSymbols = []string{"a b", "a(b", "(", ")", "'", "a'b", "\"", ";", "a;b", "#", "a#", ",", "`", "a&b", "[", "]", "{", "}", "!", "a!", "A B", "Hello World", "x y z", ""}
+var safePipeSymbols = []string{"a b", "a(b", "(", ")", "'", "a'b", "\"", ";", "a;b", "#", "a#", ",", "`", "a&b", "[", "]", "{", "}", "!", "a!", "A B", "Hello World", "x y z", "", "123", "-5", "1.", "1e5", "1d0", "1/2", "2s3"}
 
 func (g *gen) safeAtom() slip.Object {
 	r := g.rng()
@@ -847,6 +847,15 @@ func repairedCases() (out []repairedCase) {
 	} {
 		out = append(out, repairedCase{"C03-2", capPretty, o})
 		out = append(out, repairedCase{"C03-2", with(capPretty, func(c *cfg) { c.margin = 3 }), o})
+	}
+	// C03-3: names that read as numbers, alone and in lists, flat (in a pretty list the bars are still dropped)
+	for _, name := range []string{"123", "-5", "+7", "1.", "1.5", "1e5", "1E5", "1d0", "2s3", "1f0", "1l0", "1L0", "-1.5e-3", "1/2", "-3/4", "1/0", "+", "-", "1+", "-a", "1e", "0", "00", "9223372036854775808"} {
+		for _, c := range []cfg{flat, with(flat, func(c *cfg) { c.pcase = "up" }), with(flat, func(c *cfg) { c.base, c.radix = 16, true }), pretty} {
+			out = append(out, repairedCase{"C03-3", c, slip.Symbol(name)})
+			if !c.pretty {
+				out = append(out, repairedCase{"C03-3", c, slip.List{slip.Symbol(name), slip.Symbol("x"), slip.Symbol(name)}})
+			}
+		}
 	}
 	return
 }
